@@ -66,7 +66,15 @@ def make_cyclic(rng, name, kind):
     for k in range(1, n + 1):
         st.append(S(f"x{k}", rng.choice(["pass", "acc", "count"]), prev, uid=2 + k))
         prev = f"x{k}"
-    if kind == "delayed":
+    if kind == "delayed" and rng.random() < 0.4:
+        # the cycle is closed through a FORWARDED forward declaration (the placeholder is bound to a second placeholder, which is
+        # bound to the descendant), the two bindings wired in either order
+        st.insert(1, S("d2", "delayed"))
+        binds = [S("", "bindd", "d", "d2"), S("", "bindd", "d2", prev)]
+        rng.shuffle(binds)
+        st += binds
+        c.meta["chained"] = 1
+    elif kind == "delayed":
         st.append(S("", "bindd", "d", prev))
     elif kind == "control":
         st.append(S("", "bind", "d", prev))
